@@ -9,7 +9,7 @@ if [ -n "$(git -C /repo status --porcelain --untracked-files=no)" ]; then echo "
 trap 'git -C /repo checkout -- . ' EXIT
 for p in "$@"; do
   name=$(basename "$p" .diff)
-  git -C /repo apply "$p" || { echo "$name: PATCH-DOES-NOT-APPLY"; continue; }
+  git -C /repo apply "$(realpath "$p")" || { echo "$name: PATCH-DOES-NOT-APPLY"; continue; }
   t0=$(date +%s.%N)
   out=$(VERIF_REPLAYS=/verif/sim/target/sens-replays ./check "$prop" quick --cases "$CASES" 2>&1); rc=$?
   t1=$(date +%s.%N)
